@@ -432,7 +432,8 @@ class QAdaptiveActivation(Layer, PrunableLayer):
     if self.will_ema_freeze:
       is_ema_training = tf.cond(
           tf.greater(self.step, self.ema_freeze_delay),
-          lambda: tf.constant(False), lambda: tf.constant(True))
+          lambda: tf.constant(False),
+          lambda: tf.constant(training, dtype=tf.bool))
 
     def update_branch():
       """ Update the moving average when is_ema_training is True."""
